@@ -746,6 +746,10 @@ func (fr *frame) backEdge(li *loopInfo, from *ssa.BasicBlock, st *State) {
 		}
 		return
 	}
+	if li.spec != nil && li.spec.NonTerm {
+		c.note("loop %d of %s is declared nonterminating: termination is not claimed", li.ordinal, fr.fn.Name())
+		return
+	}
 	c.oblige(st, "variant", f.False(), c.e.pos(li.header.Instrs[len(li.header.Instrs)-1].Pos()), fmt.Sprintf("loop %d of %s has no variant (termination not shown)", li.ordinal, fr.fn.Name()))
 }
 
